@@ -120,6 +120,10 @@ pub fn check_program(prog: &Program, seed: u64, thorough: bool, rep: &mut Report
 }
 
 pub fn run(p: &Params, rep: &mut Report) {
+    if p.shard == 4 {
+        let n = if p.thorough { super::scale::N_THOROUGH } else { super::scale::N_QUICK };
+        super::scale::c18(rep, n, p.seed);
+    }
     let stride = 1;
     for_tiny_programs(p, rep, stride, p.size(150, 3000), |prog, seed, rep| check_program(prog, seed, p.thorough, rep));
     let n = p.size(250, 2500);
@@ -128,6 +132,10 @@ pub fn run(p: &Params, rep: &mut Report) {
 }
 
 pub fn replay(kind: &str, text: &str, seed: u64, rep: &mut Report) -> bool {
+    if kind == "scale" {
+        super::scale::c18(rep, text.trim().parse().unwrap_or(super::scale::N_QUICK), seed);
+        return true;
+    }
     if kind != KIND_MGR {
         return false;
     }
